@@ -1337,7 +1337,7 @@ fn directory_case() -> Case {
 fn non_unicode_cases() -> Vec<Case> {
     let name = b"b\xff.md".to_vec();
     let mut v = vec![];
-    for (variant, label) in [(0, "non-Unicode file name, --config-file none"), (1, "non-Unicode file name + readable config file: the file argument is dropped"), (2, "non-Unicode file name + another file + empty config file: Vec::insert panics")] {
+    for (variant, label) in [(0, "non-Unicode file name, --config-file none"), (1, "non-Unicode file name + readable config file (the argument was dropped before the repair)"), (2, "non-Unicode file name + another file + empty config file (Vec::insert panicked before the repair)")] {
         let mut c = plain_case(&[], label);
         c.class = Class::Render;
         c.files = vec![(name.clone(), Some(b"*from the file*\n".to_vec()))];
